@@ -1417,6 +1417,17 @@ class BADS:
                     self.optim_state["iter"] = poll_iteration
 
             loop_iter += 1
+            if os.environ.get("PYBADS_VERIF") == "1" and getattr(self, "_verif_probe", None) is not None:
+                self._verif_probe(
+                    dict(
+                        loop_iter=loop_iter,
+                        poll_iteration=poll_iteration,
+                        do_search_step=bool(do_search_step_flag),
+                        do_poll_step=bool(do_poll_step),
+                        is_finished=bool(is_finished),
+                        msg=msg,
+                    )
+                )
 
         # End while
 
